@@ -145,6 +145,12 @@ ScaleTolPpb == 1000           \* (c f, ivar/c^2) -> (c out, outivar/c^2): 1e-6 r
 IvarScale == 100000           \* observed inverse variances are reported in units of 1/(q*IvarScale)
 IvarTol == 2                  \* in those units
 ShiftResidTolMilli == 10      \* feature position: 0.01 pixel
+(* The outcome is a function of the VALUES of the arguments only: the same numbers held in a    *)
+(* read-only buffer, a non-contiguous or Fortran-ordered view, byte-swapped (as read from FITS), *)
+(* or a 0-d array where a scalar is admitted, give the same flux and inverse variance.  Every    *)
+(* law above is therefore checked on all of these layouts with the expectation of the values,   *)
+(* and a direct comparison of two layouts must agree exactly.                                    *)
+LayoutTolPpb == 0
 
 (* observed value o (integer, units 1/IvarScale of the unit of iv) against the exact rational v *)
 CloseTo(o, v) == Abs(o * v[2] - IvarScale * v[1]) <= IvarTol * v[2]
